@@ -1122,9 +1122,14 @@ stream_encoder_mt_init(lzma_next_coder *next, const lzma_allocator *allocator,
 	// running. They read coder->block_size and may set
 	// coder->thread_error, so those must not be touched before
 	// the threads have been stopped.
+	//
+	// The old threads can be reused only if the Block size is the same
+	// too: the input buffer of each thread was allocated for the Block
+	// size that was in use when the thread was created.
 	coder->thr = NULL;
 	assert(options->threads > 0);
-	if (coder->threads_max != options->threads) {
+	if (coder->threads_max != options->threads
+			|| coder->block_size != block_size) {
 		threads_end(coder, allocator);
 
 		coder->threads = NULL;
